@@ -491,7 +491,23 @@ def _literal_truth(a):
     if isinstance(a, ast.UnaryOp) and isinstance(a.op, ast.Not):
         t = _literal_truth(a.operand)
         return None if t is None else not t
+    if isinstance(a, ast.Compare) and len(a.ops) == 1 and isinstance(a.ops[0], (ast.Is, ast.IsNot)) and isinstance(a.comparators[0], ast.Constant) and a.comparators[0].value is None:
+        # identity with None of a value the path itself built: None is None; a display, or an object built by one of the package's
+        # error constructors, is not
+        is_none = None
+        if isinstance(a.left, ast.Constant):
+            is_none = a.left.value is None
+        elif isinstance(a.left, (ast.List, ast.Tuple, ast.Dict, ast.Set, ast.JoinedStr)):
+            is_none = False
+        elif isinstance(a.left, ast.Call) and isinstance(a.left.func, ast.Name) and a.left.func.id in NEVER_NONE:
+            is_none = False
+        if is_none is not None:
+            return is_none if isinstance(a.ops[0], ast.Is) else not is_none
     return None
+
+
+# functions of the package that always answer an object (they end in a constructor call): confirmed by reading
+NEVER_NONE = {"coercion_error", "graphql_error_from_nodes", "to_graphql_error", "CoercionResult", "CoercionError", "TartifletteError", "Path", "partial"}
 
 
 def outcome_rows(fv, raising_stmts=(), decide=None, caught: str = "CAUGHT", focus=None, opaque=None):
